@@ -109,11 +109,38 @@ func (s impSpec) file(root string, i int) string {
 	return filepath.Join(root, s.dirOf(i), s.baseOf(i))
 }
 
+// the *.yaml files of the directory file 0 imports as a directory, in the order filepath.Glob lists them. A
+// directory import behaves exactly like importing these files one after the other (loadDir skips the ones already
+// loaded, loads the others, fails on the first that cannot be loaded), which is how the model is told about it.
+func (s impSpec) dirExpansion() []int {
+	if s.dirImp < 0 {
+		return nil
+	}
+	var js []int
+	for j := 0; j < s.n; j++ {
+		if s.dirOf(j) == s.dirOf(s.dirImp) && s.extOf(j) == ".yaml" && !s.isRemote(j) && !(j == s.broken && s.kind == "missing") {
+			js = append(js, j)
+		}
+	}
+	sort.Slice(js, func(a, b int) bool { return s.baseOf(js[a]) < s.baseOf(js[b]) })
+	return js
+}
+
 func (s impSpec) line() string {
 	var es []string
 	for i, l := range s.edges {
+		if i == 0 && s.dirFirst {
+			for _, j := range s.dirExpansion() {
+				es = append(es, fmt.Sprintf("0>%d", j))
+			}
+		}
 		for _, j := range l {
 			es = append(es, fmt.Sprintf("%d>%d", i, j))
+		}
+		if i == 0 && !s.dirFirst {
+			for _, j := range s.dirExpansion() {
+				es = append(es, fmt.Sprintf("0>%d", j))
+			}
 		}
 	}
 	e := strings.Join(es, ",")
@@ -122,7 +149,11 @@ func (s impSpec) line() string {
 	}
 	b := "-"
 	if s.broken >= 0 {
-		b = fmt.Sprintf("%d:%s", s.broken, s.kind)
+		k := s.kind
+		if k == "dangling" {
+			k = "missing" // a directory entry with nothing behind it
+		}
+		b = fmt.Sprintf("%d:%s", s.broken, k)
 	}
 	return fmt.Sprintf("imports n=%d edges=%s broken=%s", s.n, e, b)
 }
@@ -322,7 +353,7 @@ func impCase(col *Collector, s impSpec, tag string) {
 		cs.Replay += fmt.Sprintf(" files %d.. served over HTTP and imported by URL (odd ones as JSON by Content-Type)", s.remoteFrom)
 		cs.Tags = append(cs.Tags, "url-imports")
 	}
-	if s.dirImp < 0 && !s.dotRoot {
+	if !s.dotRoot {
 		cs.Line = s.line()
 	}
 	var r result
